@@ -572,3 +572,120 @@ def refcount_obligations(ctx, prog, pfx):
 def rules_guards(f, P, blk):
     import rules
     return rules.guards(f, P, blk)
+
+
+# ------------------------------------------------------------------------------------------------
+# counters compared with constants: facts named '<counter>><K>'
+# ------------------------------------------------------------------------------------------------
+
+def counter_fact(gkeys):
+    """matcher for comparisons of a global counter (address key in gkeys) with a constant; the fact is named
+    '<key>>K' (counter > K), whatever the spelling of the comparison"""
+    def m(c):
+        c0 = strip_casts(c)
+        k = _load_key(c0)
+        if k in gkeys:
+            return ('%s>0' % k, True)
+        cn = cmp_norm(c0)
+        if not cn:
+            return None
+        p, x, y = cn
+        kx = _load_key(x)
+        if kx not in gkeys or y[0] != 'const':
+            return None
+        K = y[1]
+        if p == 'ugt':
+            return ('%s>%d' % (kx, K), True)
+        if p == 'uge' and K >= 1:
+            return ('%s>%d' % (kx, K - 1), True)
+        if p == 'ult' and K >= 1:
+            return ('%s>%d' % (kx, K - 1), False)
+        if p == 'ule':
+            return ('%s>%d' % (kx, K), False)
+        if p == 'ne' and K == 0:
+            return ('%s>0' % kx, True)
+        if p == 'eq' and K == 0:
+            return ('%s>0' % kx, False)
+        return None
+    return (None, m)
+
+
+def counters_consistent(facts):
+    """monotonicity: c > a true implies c > b true for every b <= a"""
+    by = {}
+    for name, val in facts.items():
+        if isinstance(name, str) and '>' in name and name.split('>')[1].isdigit():
+            g, k = name.split('>')
+            by.setdefault(g, []).append((int(k), val))
+    for g, lst in by.items():
+        for k1, v1 in lst:
+            for k2, v2 in lst:
+                if k1 >= k2 and v1 and not v2:
+                    return False
+    return True
+
+
+def counter_gt(facts, key, k):
+    """truth of `key > k` as far as the facts on the path determine it (None: not determined)"""
+    best = None
+    for name, val in facts.items():
+        if isinstance(name, str) and name.startswith(key + '>') and name[len(key) + 1:].isdigit():
+            kk = int(name[len(key) + 1:])
+            if val and kk >= k:
+                return True
+            if not val and kk <= k:
+                best = False
+    return best
+
+
+def eq_fact(name, ka, kb):
+    def m(c):
+        cn = cmp_norm(c)
+        if not cn:
+            return None
+        p, x, y = cn
+        if {_load_key(x), _load_key(y)} == {ka, kb} and p in ('eq', 'ne'):
+            return p == 'eq'
+        return None
+    return (name, m)
+
+
+def nonnull_fact(name, key):
+    def m(c):
+        c0 = strip_casts(c)
+        if _load_key(c0) == key:
+            return True
+        cn = cmp_norm(c0)
+        if cn and _load_key(cn[1]) == key and cn[2] in (('null',), ('const', 0)) and cn[0] in ('ne', 'eq'):
+            return cn[0] == 'ne'
+        return None
+    return (name, m)
+
+
+def nonempty_q(unit, q):
+    def m(c):
+        k = _load_key(c)
+        key = 'G:%s:%s.size' % (unit, q)
+        if k == key:
+            return True
+        cn = cmp_norm(c)
+        if cn and _load_key(cn[1]) == key and cn[2] == ('const', 0):
+            return {'ne': True, 'ugt': True, 'eq': False}.get(cn[0])
+        return None
+    return ('nonempty:' + q, m)
+
+
+def predicate_table(prog, unit, fname, facts):
+    """[(return value or None, facts)] over every explored path of a ready predicate, inconsistent counter
+    combinations removed"""
+    f = prog.func(unit, fname)
+    P = Prov(prog, f)
+    ex = Explorer(prog, f, {}, facts, P)
+    rows = []
+    for kind, blk, st in ex.explore([{'cells': {}, 'facts': {}}]):
+        if kind != 'ret':
+            continue
+        if not counters_consistent(st['facts']):
+            continue
+        rows.append((ex.ret_bool(st, blk), st['facts']))
+    return f, rows
